@@ -15,3 +15,7 @@ void vassert(uint32_t c, uint32_t id) { __CPROVER_assert(c, "vassert:dynamic"); 
 void vassume(uint32_t c) { __CPROVER_assume(c); }
 void vwitness(uint32_t id) { __CPROVER_assert(0, "vwitness:dynamic"); }
 void vrec(uint32_t a, uint32_t b) { }
+
+/* byte-wise helpers with their own loop ids (vmem_equal.0 / vmem_copy.0) so that their bound can be set independently */
+uint32_t vmem_equal(const uint8_t* a, const uint8_t* b, uint64_t n) { uint32_t e = 1; for (uint64_t i = 0; i < n; i++) e = e & (a[i] == b[i]); return e; }
+void vmem_copy(uint8_t* d, const uint8_t* s, uint64_t n) { for (uint64_t i = 0; i < n; i++) d[i] = s[i]; }
